@@ -86,6 +86,17 @@ STATEFUL = [
     "[datetime($.n * 1000, timespan(hours => $.n mod 10)).offset.hours, $.n]",
     "format('{0}-{1}', $.n, $.s)", "'{a}'.format(a => $.list)",
     "$.list.select(str($)).join(',')", "$.list.toList() * 2",
+    # a frozen dictionary of the host in the shared context: hashed by some
+    # evaluations, compared with equal dictionaries by others
+    "[$frozen = {a => 1, b => 2}, $frozen != {a => 1, b => 2}, $.n]",
+    "[set($frozen, $.n).len(), $frozen = {a => 1, b => 2}]",
+    "[{$frozen => $.n}.len(), $frozen in [{a => 1, b => 2}]]",
+    "[$frozen].distinct().len() + $.n",
+    "[$frozen, {a => 1, b => 2}].distinct().len()",
+    "[$frozen = $frozen2, [$frozen, $frozen2].toSet().len(), $.n]",
+    # deep nesting: every thread well below any depth limit on its own
+    "(" + " + ".join(["$.n"] * 80) + ") mod 7",
+    "%s$.n%s.len()" % ("[" * 60, "]" * 60),
     # integers beyond the interpreter's int->str digit limit (a process-wide
     # setting): conversions of such values next to ordinary ones
     "str(pow(10, 4400) + $.n).len()", "[pow(7, 6000), $.n].select(str($).len())",
@@ -129,6 +140,10 @@ BROKEN = ["$.list.select(", "1 +", "$.n + * 2", "[1, 2", "$.s =~", "foo(,)",
 def family_of(text):
     if '4400' in text or '6000' in text:
         return 'interpreter_settings'
+    if '$frozen' in text:
+        return 'frozen_host_dicts'
+    if text.count('$.n + $.n') > 20 or '[[[[[[' in text:
+        return 'deep_nesting'
     if '$yobj' in text:
         return 'host_objects'
     if any(k in text for k in ('kindOf', 'chained', 'notStr', 'subLen',
@@ -447,6 +462,9 @@ class World:
         P.register_function(lambda: hostlist, name='hostlist')
         P['hostvar'] = [1, 2, [3]]
         P['hostdict'] = {'k': [1], 'm': {'z': 1}}
+        from yaql.language import utils as _u
+        P['frozen'] = _u.FrozenDict({'a': 1, 'b': 2})
+        P['frozen2'] = _u.FrozenDict({'b': 2, 'a': 1})
         for k, v in synth.std_vars().items():
             P[k] = v
         shared = case.get('shared', 'plain')
